@@ -5,7 +5,7 @@ UPDATE_ALL = [func("bt.core.StrategyBase.update", variant=v) for v in ("flat", "
 
 ID = "C07"
 META = {
-    "assumptions": ['A-REAL', 'A-COMM', 'A-T', 'A-IND', 'A-DATA-NONE', 'A-CYTHON', 'A-SOLVER', 'A-ENGINE'],
+    "assumptions": ['A-REAL', 'A-COMM', 'A-T', 'A-IND', 'A-CYTHON', 'A-SOLVER', 'A-ENGINE'],
     "explanation": "transact/outlay/adjust under functional contracts (every field of the post-state); lemmas: a trade moves exactly q*p*mult + half-spread (or custom-price difference) as outlay and comm(q, p*mult) as fee, once, to the security's own parent, never as a flow, nobody else is charged; update writes cash/fees/flows rows on every call and resets the accumulators only on a date change; security update flushes the pending outlay into the row of the current index; allocate's sizing probes book nothing (loop invariant 'nothing booked').",
 }
 MANIFEST_ENTRY = {
